@@ -40,12 +40,22 @@ DefiniteVerdict(v) ==
   ELSE IF ty = "datetime" /\ x[1] = "dt" /\ x[3] < 86400 /\ v.value # ValueOfInstant(x) THEN "DefiniteTimex: datetime value differs from its definite TIMEX"
   ELSE "ok"
 
+(* a range whose TIMEX triple has definite endpoints: the resolved endpoints are those of the triple (the duration
+   arithmetic of the triple is C10's business) *)
+RangeDefiniteVerdict(v) == LET t == TripleVerdict(v) IN IF Len(t) >= 14 /\ SubSeq(t, 1, 14) = "TripleDuration" THEN "ok" ELSE t
+(* the library's "no such date" marker (DateObject min value) must never reach a value *)
+IsMinDate(s) == Len(s) >= 10 /\ SubSeq(s, 1, 10) = "0001-01-01"
+SentinelVerdict(v) == IF IsMinDate(Get(v, "value", "")) \/ IsMinDate(Get(v, "start", "")) \/ IsMinDate(Get(v, "end", ""))
+                      THEN "NotResolved: the minimum date 0001-01-01 is emitted where 'not resolved' is due" ELSE "ok"
+
 (* e: entity [type, res]; first failing clause over its values *)
 EntityVerdict(e) ==
   IF ~Has(e.res, "values") THEN "Resolved: entity without resolution values"
   ELSE LET vs == e.res.values
            clause(v) == IF ShapeVerdict(v) # "ok" THEN ShapeVerdict(v)
+                        ELSE IF SentinelVerdict(v) # "ok" THEN SentinelVerdict(v)
                         ELSE IF DefiniteVerdict(v) # "ok" THEN DefiniteVerdict(v)
+                        ELSE IF RangeDefiniteVerdict(v) # "ok" THEN RangeDefiniteVerdict(v)
                         ELSE IF e.type # "datetimeV2." \o Get(v, "type", "") THEN "TypeName: entity type name differs from the type of a value"
                         ELSE "ok"
            badk == { k \in 1..Len(vs) : clause(vs[k]) # "ok" }
